@@ -207,9 +207,13 @@ def run(chk):
                  "z_min": 5871000.0, "z_max": 6371000.0}
             if dim == 2:
                 g = {"x_min": 0.0, "x_max": 40.0, "y_min": 0.0, "y_max": 0.0, "z_min": 5871000.0, "z_max": 6371000.0}
+            if (gi // 7) % 2 == 1:
+                # a chunk whose top lies below the surface of the planet: Depth (and the depth handed to the library) is the distance
+                # below the top of the *grid*
+                g["z_min"], g["z_max"] = 5571000.0, 6171000.0
             gtype = "chunk"
         elif kind == "annulus":
-            g = {"x_min": 0.0, "x_max": 0.0, "z_min": 4371000.0, "z_max": 6371000.0}
+            g = {"x_min": 0.0, "x_max": 0.0, "z_min": 4371000.0, "z_max": 6371000.0 if (gi // 7) % 2 == 0 else 6071000.0}
             gtype = "annulus"
             nz = 3
         else:
